@@ -5,7 +5,8 @@ Space: LineScan / GridScan with start in {(0,0), (1.5,-2)}, 3 end points, gpts i
 {whole pixels, half pixel, generic, outside the cell} on 4 grids with aberrations.
 Oracle: number of positions = gpts; positions[i] = start + i * sampling * direction; the last position is the end point with
 endpoint and one step short of it otherwise; the axis metadata coordinates are the same numbers; probe(r) = np.roll(probe(0))
-for whole pixels and = fft_shift(probe(0), r / sampling) otherwise.
+for whole pixels and = fft_shift(probe(0), r / sampling) otherwise; the same for every position of 3 GridScans built eagerly
+and lazily with max_batch in {1, 2, 3, 7, 10, auto} (equal, unequal and single-position blocks).
 """
 import itertools
 
@@ -175,4 +176,24 @@ def run_case(c):
         worst = max(worst, e / 2e-5)
         if not e <= 2e-5:
             bad("probe/%s-shift" % ("whole-pixel" if whole else "sub-pixel"), "probe at (%r, %r) px differs from the %s origin probe by %.3g" % (px, py, "rolled" if whole else "Fourier-shifted", e))
-    return {"viol": viol, "obs": "probes", "nt": True, "tr": len(positions) + 1, "err": worst}
+    # the same statement through a GridScan and every build path: eager, and lazy with batch sizes that split the scan into equal,
+    # unequal and single-position blocks
+    tr = len(positions) + 1
+    for gp, ep in (((5, 3), False), ((8, 5), False), ((4, 3), True)):
+        scan = abtem.GridScan(start=(dx, 0.0), end=(dx * (1 + 1.5 * gp[0]), dy * gp[1]), gpts=gp, endpoint=ep)
+        pos = np.asarray(scan.get_positions(), float).reshape(gp + (2,))
+        want = np.stack([np.stack([np.asarray(fft_shift(origin, np.array([pos[i, j, 0] / dx, pos[i, j, 1] / dy]))) for j in range(gp[1])]) for i in range(gp[0])])
+        for mode in ("eager", 1, 2, 3, 7, 10, "auto"):
+            built = probe.build(scan, lazy=False) if mode == "eager" else probe.build(scan, lazy=True, max_batch=mode).compute()
+            got = np.asarray(built.array)
+            tr += 1
+            if got.shape != want.shape:
+                bad("probe/gridscan-shape", "probe.build(GridScan %r, %r) has shape %r" % (gp, mode, got.shape))
+                continue
+            e = float(np.abs(got - want).max()) / float(np.abs(origin).max())
+            worst = max(worst, e / 2e-5)
+            if not e <= 2e-5:
+                i = np.unravel_index(int(np.argmax(np.abs(got - want).max(axis=(-2, -1)))), gp)
+                bad("probe/gridscan/%s" % ("eager" if mode == "eager" else "lazy"), "probe.build(GridScan gpts %r endpoint %r, max_batch=%r): the probe at scan index %r differs from the origin probe shifted to %r by %.3g"
+                    % (gp, ep, mode, tuple(int(x) for x in i), pos[i].tolist(), e))
+    return {"viol": viol, "obs": "probes", "nt": True, "tr": tr, "err": worst}
